@@ -187,18 +187,6 @@ Definition ok_iface_extra_required_arg (doc : tsdoc) : bool :=
                         (args_of (fd_args f))
     | None => true end).
 
-(** what nitrogql enforces instead of the previous rule: an additional argument must be nullable, default or not.
-    A schema that satisfies [ok_iface_extra_required_arg] but not this is the known false alarm
-    (C05_complete_extra_default_refuted). *)
-Definition ty_nonnull (t : ty) : bool := match t with TNonNull _ => true | _ => false end.
-Definition ok_extra_args_nullable (doc : tsdoc) : bool :=
-  forall_impl_fields doc (fun fs jf =>
-    match field_named fs (iname (fd_name jf)) with
-    | Some f => forallb (fun a => match arg_named (args_of (fd_args jf)) (iname (iv_name a)) with
-                                  | Some _ => true | None => negb (ty_nonnull (iv_type a)) end)
-                        (args_of (fd_args f))
-    | None => true end).
-
 Definition ok_union_member_not_object (doc : tsdoc) : bool :=
   forallb (fun t => match t with
                     | TDUnion _ _ _ _ ms _ => forallb (fun m => match lookup_t doc (iname m) with
@@ -250,11 +238,13 @@ Fixpoint parse_digits (acc : Z) (l : str) : option Z :=
   | [] => Some acc
   | c :: r => match digit c with Some d => parse_digits (acc * 10 + d)%Z r | None => None end
   end.
+(** the integer an IntValue lexeme denotes (`-`? digits; a leading `+` does not occur in lexemes and is read as a sign) *)
 Definition parse_int (l : str) : option Z :=
   match l with
-  | 45%N :: (_ :: _) as r => option_map Z.opp (parse_digits 0 r)
-  | _ :: _ => parse_digits 0 l
   | [] => None
+  | c :: r =>
+      let signed := (N.eqb c 45 || N.eqb c 43) && negb (match r with [] => true | _ => false end) in
+      option_map (fun z => if N.eqb c 45 && signed then (- z)%Z else z) (parse_digits 0 (if signed then r else l))
   end.
 Definition int32 (lexeme : str) : bool :=
   match parse_int lexeme with Some z => (-2147483648 <=? z)%Z && (z <=? 2147483647)%Z | None => false end.
@@ -327,7 +317,7 @@ Definition ok_directive_args_gen (strict_int : bool) (doc : tsdoc) : bool :=
              match lookup_d doc (iname (dir_name a)) with Some d => app_args_ok strict_int doc a d | None => true end) (snd la)) (all_apps doc).
 (** the specification's reading: an Int literal must fit in 32 bits *)
 Definition ok_directive_args (doc : tsdoc) : bool := ok_directive_args_gen true doc.
-(** the same without the 32-bit range condition on Int literals *)
+(** the same without the 32-bit range condition on Int literals (what nitrogql enforced before 556742c) *)
 Definition ok_directive_args_lenient (doc : tsdoc) : bool := ok_directive_args_gen false doc.
 (** Argument Uniqueness (5.4.2), not among the rules nitrogql implements *)
 Definition ok_app_arg_unique (doc : tsdoc) : bool :=
@@ -382,9 +372,9 @@ Inductive rule :=
 | RUnionMemberNotObject | RDirectiveUnknown | RDirectiveMisplaced | RDirectiveRepeated | RDirectiveArgs
 | RDirectiveRecursive.
 
-(** [spec] = true: every rule as the specification reads it.  [spec] = false: two rules in the scope the current
-    implementation gives them (Int literals of any size; directive self-reference through the argument's own named
-    type only) -- see C05_sound_directive_args_int_range_refuted, C05_sound_directive_recursive_nested_refuted. *)
+(** [spec] = true: every rule as the specification reads it.  [spec] = false: one rule in the scope the current
+    implementation gives it (directive self-reference through the argument's own named type only, not through the
+    types of input-object fields) -- see C05_sound_directive_recursive_nested_refuted. *)
 Definition rule_ok_gen (spec : bool) (r : rule) (doc : tsdoc) : bool :=
   match r with
   | RReserved => ok_reserved doc | RDupField => ok_dup_field doc | RDupArg => ok_dup_arg doc
@@ -397,7 +387,7 @@ Definition rule_ok_gen (spec : bool) (r : rule) (doc : tsdoc) : bool :=
   | RIfaceArgType => ok_iface_arg_type doc | RIfaceExtraRequiredArg => ok_iface_extra_required_arg doc
   | RUnionMemberNotObject => ok_union_member_not_object doc | RDirectiveUnknown => ok_directive_unknown doc
   | RDirectiveMisplaced => ok_directive_misplaced doc | RDirectiveRepeated => ok_directive_repeated doc
-  | RDirectiveArgs => ok_directive_args_gen spec doc | RDirectiveRecursive => ok_directive_recursive_gen spec doc
+  | RDirectiveArgs => ok_directive_args doc | RDirectiveRecursive => ok_directive_recursive_gen spec doc
   end.
 Definition rule_ok (r : rule) (doc : tsdoc) : bool := rule_ok_gen true r doc.
 Definition all_rules : list rule :=
